@@ -590,7 +590,8 @@ func (c *Corpus) addKeyID(mm *mutationMap) error {
 }
 
 func (c *Corpus) addBlob(ctx context.Context, br blob.Ref, mm *mutationMap) error {
-	if _, dup := c.blobs[br]; dup {
+	_, dup := c.blobs[br]
+	if dup && !mm.reindexOfPartial {
 		return nil
 	}
 	c.gen++
@@ -606,6 +607,10 @@ func (c *Corpus) addBlob(ctx context.Context, br blob.Ref, mm *mutationMap) erro
 			continue
 		}
 		if !slurpedKeyType[kt] {
+			continue
+		}
+		if dup && kt == "meta" {
+			// merged when the blob was first stored, with a dependency missing
 			continue
 		}
 		if err := corpusMergeFunc[kt](c, []byte(k), []byte(v)); err != nil {
